@@ -84,3 +84,168 @@ Proof.
   destruct (C16_append_adds C16_ex.s C16_ex.d1 _ _ H1 H2) as [s' [E1 E2]].
   exists s'. refine (conj E1 (conj _ (conj _ E2))); vm_compute in E1; injection E1 as <-; vm_compute; reflexivity.
 Qed.
+
+(* ================================================================================================================ *)
+(* The same for the MODEL's write step Reader.write_text (DictWriter.write up to the text handed to the file):       *)
+(* the theorems above speak of spec_write only.                                                                     *)
+(* ================================================================================================================ *)
+From DictIO Require Import Layout Lexer TokParser Reader WriteProofs.
+
+Module C16_mex.
+  Definition ks (s : string) : key := KS (of_string s).
+  Definition sv (s : string) : tree := Leaf (SStr (of_string s)).
+  Definition pth := of_string "/r/parsed.f".
+  (* the existing file: a line comment at the top level (which also becomes the place of the default header) and one
+     inside b -- what is read back is NOT ordinary data *)
+  Definition text := of_string "// first comment
+a 1;
+b { x 2; // inner
+ y 'hello'; }
+".
+  (* the source dict, values still strings (parse_values types them): clashes with a and b.x, new c and b.z *)
+  Definition d : list (key * tree) := [(ks "a", sv "5"); (ks "c", sv "7"); (ks "b", Dict [(ks "x", sv "9"); (ks "z", sv "3")])].
+  Definition d_typed : list (key * tree) :=
+    [(ks "a", Leaf (SInt 5)); (ks "c", Leaf (SInt 7)); (ks "b", Dict [(ks "x", Leaf (SInt 9)); (ks "z", Leaf (SInt 3))])].
+  Definition appended : str := native_header ++ of_string "// first comment
+a                             1;
+b
+{
+    x                         2;
+    // inner
+    y                         hello;
+    z                         3;
+}
+c                             7;
+".
+  Definition overwritten : str := of_string "a                             5;
+c                             7;
+b
+{
+    x                         9;
+    z                         3;
+}
+".
+End C16_mex.
+
+(* overwrite mode, and append mode when the target does not exist: the text is the serialisation of the source dict
+   (after parse_values), whatever the target held; parse_values raising is the only way to fail *)
+Theorem C16_write_text_overwrite : forall foam path existing d,
+  (forall d', parse_values_tree (Dict d) = Ok (Dict d') ->
+     write_text foam path existing false d = Ok (if foam then foam_to_string_plain d' else to_string_plain d') /\
+     write_text foam path None true d = Ok (if foam then foam_to_string_plain d' else to_string_plain d')) /\
+  (forall e, parse_values_tree (Dict d) = Raise e ->
+     write_text foam path existing false d = Raise e /\ write_text foam path None true d = Raise e) /\
+  ((exists d', parse_values_tree (Dict d) = Ok (Dict d')) \/ (exists e, parse_values_tree (Dict d) = Raise e)).
+Proof. exact write_text_overwrite. Qed.
+Print Assumptions C16_write_text_overwrite.
+
+(* non-vacuity: the existing content cannot even be parsed, and plays no role *)
+Example C16_write_text_overwrite_nonvacuous :
+  parse_values_tree (Dict C16_mex.d) = Ok (Dict C16_mex.d_typed) /\
+  to_string_plain C16_mex.d_typed = C16_mex.overwritten /\
+  write_text false C16_mex.pth (Some (of_string "{{{ garbage")) false C16_mex.d = Ok C16_mex.overwritten /\
+  write_text false C16_mex.pth (Some C16_mex.text) false C16_mex.d = Ok C16_mex.overwritten /\
+  write_text false C16_mex.pth None true C16_mex.d = Ok C16_mex.overwritten.
+Proof.
+  assert (H : parse_values_tree (Dict C16_mex.d) = Ok (Dict C16_mex.d_typed)) by (vm_compute; reflexivity).
+  assert (E : to_string_plain C16_mex.d_typed = C16_mex.overwritten) by (vm_compute; reflexivity).
+  destruct (C16_write_text_overwrite false C16_mex.pth (Some (of_string "{{{ garbage")) C16_mex.d) as [A _].
+  destruct (C16_write_text_overwrite false C16_mex.pth (Some C16_mex.text) C16_mex.d) as [B _].
+  destruct (A _ H) as [A1 A2]. destruct (B _ H) as [B1 _]. cbv iota in A1, A2, B1. rewrite E in A1, A2, B1.
+  exact (conj H (conj E (conj A1 (conj B1 A2)))).
+Qed.
+
+(* append onto an existing target: the text is the serialisation of [what is read back from the target] merged with
+   the source dict (after parse_values); the read-back state is well formed (unique keys at every level -- proved for
+   the parser, the clean-up and the include merging), the merged state keeps every leaf of the read-back state under
+   ordinary keys and contains every new top-level key of the source.
+   Side conditions, both satisfied by the example below:
+   - the leaf is not a top-level value referring to its own key (merge replaces such an entry on purpose, see
+     C07_merge_self_reference_is_replaced; the expressions table of the read-back state is empty, so the test is on
+     the value as it stands);
+   - wf of the source dict (unique keys, a Python dict invariant), for the second part. *)
+Theorem C16_write_text_append : forall foam path text d txt,
+  write_text foam path (Some text) true d = Ok txt ->
+  exists s_old c d',
+    read_plain [(norm_path path, FNative text)] path true true (-1)%Z = Ok (s_old, c) /\
+    parse_values_tree (Dict d) = Ok (Dict d') /\
+    map fst d' = map fst d /\
+    sd_expr s_old = [] /\
+    wf (Dict (sd_data s_old)) = true /\
+    txt = (if foam then foam_to_string_sd (sd_merge s_old d' None) else to_string_sd (sd_merge s_old d' None)) /\
+    (forall p v, forallb ordinary_key p = true ->
+       get_dpath (Dict (sd_data s_old)) p = Some (Leaf v) ->
+       match p with [k] => circular k (Leaf v) | _ => false end = false ->
+       get_dpath (Dict (sd_data (sd_merge s_old d' None))) p = Some (Leaf v)) /\
+    (forall k x, ordinary_key k = true -> wf (Dict d) = true ->
+       alookup k (sd_data s_old) = None -> alookup k d' = Some x -> (forall kvs, x <> Dict kvs) ->
+       alookup k (sd_data (sd_merge s_old d' None)) = Some x).
+Proof. exact write_text_append. Qed.
+Print Assumptions C16_write_text_append.
+
+(* what is read back from a file tree of native files is well formed, whatever the text (used above) *)
+Theorem C16_read_back_wf : forall fs root inc com count s c, native_fs fs = true ->
+  read_plain fs root inc com count = Ok (s, c) -> wf (Dict (sd_data s)) = true.
+Proof. exact read_plain_wf. Qed.
+Print Assumptions C16_read_back_wf.
+
+(* non-vacuity: the append succeeds with the expected text; the read-back state holds placeholder keys (it is not
+   ordinary), and the existing leaves a and b.x -- both clashing with the source -- as well as b.y are obtained from
+   the theorem, as is the new key c *)
+Example C16_write_text_append_nonvacuous :
+  write_text false C16_mex.pth (Some C16_mex.text) true C16_mex.d = Ok C16_mex.appended /\
+  exists s_old c d',
+    read_plain [(norm_path C16_mex.pth, FNative C16_mex.text)] C16_mex.pth true true (-1)%Z = Ok (s_old, c) /\
+    parse_values_tree (Dict C16_mex.d) = Ok (Dict d') /\ d' = C16_mex.d_typed /\
+    ordinary_kvs (sd_data s_old) = false /\ wf (Dict (sd_data s_old)) = true /\ wf (Dict C16_mex.d) = true /\
+    get_dpath (Dict (sd_data s_old)) [C16_mex.ks "b"; C16_mex.ks "x"] = Some (Leaf (SInt 2)) /\
+    get_dpath (Dict d') [C16_mex.ks "b"; C16_mex.ks "x"] = Some (Leaf (SInt 9)) /\
+    alookup (C16_mex.ks "c") (sd_data s_old) = None /\
+    get_dpath (Dict (sd_data (sd_merge s_old d' None))) [C16_mex.ks "b"; C16_mex.ks "x"] = Some (Leaf (SInt 2)) /\
+    get_dpath (Dict (sd_data (sd_merge s_old d' None))) [C16_mex.ks "b"; C16_mex.ks "y"] = Some (Leaf (SStr (of_string "hello"))) /\
+    get_dpath (Dict (sd_data (sd_merge s_old d' None))) [C16_mex.ks "a"] = Some (Leaf (SInt 1)) /\
+    alookup (C16_mex.ks "c") (sd_data (sd_merge s_old d' None)) = Some (Leaf (SInt 7)).
+Proof.
+  assert (Hw : write_text false C16_mex.pth (Some C16_mex.text) true C16_mex.d = Ok C16_mex.appended) by (vm_compute; reflexivity).
+  split; [exact Hw|].
+  destruct (C16_write_text_append _ _ _ _ _ Hw) as [s_old [c [d' [Er [Ed [_ [_ [H2 [_ [Hkeep Hadd]]]]]]]]]].
+  exists s_old, c, d'. split; [exact Er|]. split; [exact Ed|].
+  assert (Ed' : d' = C16_mex.d_typed).
+  { assert (E : parse_values_tree (Dict C16_mex.d) = Ok (Dict C16_mex.d_typed)) by (vm_compute; reflexivity).
+    rewrite E in Ed. injection Ed as Ed. symmetry. exact Ed. }
+  split; [exact Ed'|]. subst d'. clear Ed.
+  assert (Es : exists s0, s0 = s_old /\ ordinary_kvs (sd_data s0) = false /\
+                 get_dpath (Dict (sd_data s0)) [C16_mex.ks "b"; C16_mex.ks "x"] = Some (Leaf (SInt 2)) /\
+                 get_dpath (Dict (sd_data s0)) [C16_mex.ks "b"; C16_mex.ks "y"] = Some (Leaf (SStr (of_string "hello"))) /\
+                 get_dpath (Dict (sd_data s0)) [C16_mex.ks "a"] = Some (Leaf (SInt 1)) /\
+                 alookup (C16_mex.ks "c") (sd_data s0) = None).
+  { vm_compute in Er. injection Er as Er _. eexists. split; [exact Er|]. vm_compute. repeat split; reflexivity. }
+  destruct Es as [s0 [E0 [H1 [H3 [H4 [H5 H6]]]]]]. subst s0.
+  assert (Hwd : wf (Dict C16_mex.d) = true) by (vm_compute; reflexivity).
+  assert (Obx : forallb ordinary_key [C16_mex.ks "b"; C16_mex.ks "x"] = true) by (vm_compute; reflexivity).
+  assert (Oby : forallb ordinary_key [C16_mex.ks "b"; C16_mex.ks "y"] = true) by (vm_compute; reflexivity).
+  assert (Oa : forallb ordinary_key [C16_mex.ks "a"] = true) by (vm_compute; reflexivity).
+  assert (Oc : ordinary_key (C16_mex.ks "c") = true) by (vm_compute; reflexivity).
+  assert (Ca : match [C16_mex.ks "a"] with [k] => circular k (Leaf (SInt 1)) | _ => false end = false) by (vm_compute; reflexivity).
+  assert (Dc : alookup (C16_mex.ks "c") C16_mex.d_typed = Some (Leaf (SInt 7))) by (vm_compute; reflexivity).
+  assert (Nc : forall kvs, Leaf (SInt 7) <> Dict kvs) by (intros kvs; discriminate).
+  assert (Dbx : get_dpath (Dict C16_mex.d_typed) [C16_mex.ks "b"; C16_mex.ks "x"] = Some (Leaf (SInt 9))) by (vm_compute; reflexivity).
+  exact (conj H1 (conj H2 (conj Hwd (conj H3 (conj Dbx (conj H6
+           (conj (Hkeep _ _ Obx H3 eq_refl) (conj (Hkeep _ _ Oby H4 eq_refl)
+           (conj (Hkeep _ _ Oa H5 Ca) (Hadd _ _ Oc Hwd H6 Dc Nc)))))))))).
+Qed.
+
+(* non-vacuity of C16_read_back_wf: the two-file tree of C06 is not available here; the single file above, and a file
+   that repeats a key at two levels (the second assignment wins, the keys stay unique) *)
+Example C16_read_back_wf_nonvacuous :
+  let fs := [(norm_path C16_mex.pth, FNative (of_string "a 1; a 2; b { x 1; x 2; } b { y 3; }"))] in
+  native_fs fs = true /\
+  exists s c, read_plain fs C16_mex.pth true true (-1)%Z = Ok (s, c) /\
+    sd_data s = [(C16_mex.ks "a", Leaf (SInt 2)); (C16_mex.ks "b", Dict [(C16_mex.ks "y", Leaf (SInt 3))])] /\
+    wf (Dict (sd_data s)) = true.
+Proof.
+  intros fs. assert (Hn : native_fs fs = true) by (vm_compute; reflexivity). split; [exact Hn|].
+  destruct (read_plain fs C16_mex.pth true true (-1)%Z) as [[s c]|e] eqn:E; [|vm_compute in E; discriminate E].
+  exists s, c. split; [reflexivity|]. split; [vm_compute in E; injection E as <- _; reflexivity|].
+  exact (C16_read_back_wf _ _ _ _ _ _ _ Hn E).
+Qed.
